@@ -37,8 +37,8 @@ func Validate(namespaces []*Namespace) (*Environment, error) {
 		resolveTypes,
 		assignUnionCaseTags,
 		topologicalSortTypes,
-		validateMaps,
 		convertGenericReferences,
+		validateMaps,
 		validateUnionCases,
 		validateEnums,
 		resolveComputedFields,
